@@ -656,6 +656,16 @@ class CommitCsvExporter:
                 self._export_directory,
                 (self._file_name_prefix + "-" + commit_name + ".csv"),
             )
+            # Two names can become the same file name by the replacements above ("a b", a_b, a/b): one file per name
+            name_postfix_increment = 0
+            while csv_file_name in self._csv_file_names.values():
+                name_postfix_increment += 1
+                csv_file_name = os.path.join(
+                    self._export_directory,
+                    "{}-{}-{}.csv".format(
+                        self._file_name_prefix, commit_name, name_postfix_increment
+                    ),
+                )
             self._csv_file_names[commit.name] = csv_file_name
             write_headers = True
 
